@@ -13,8 +13,14 @@ MUTANTS = [
     {'name': 'correlation-before-univariates', 'rule': 'D5.order', 'file': G, 'old': "        self.columns = columns\n        self.univariates = univariates\n\n        LOGGER.debug('Computing correlation.')\n        self.correlation = self._get_correlation(X)\n", 'new': "        self.columns = columns\n\n        LOGGER.debug('Computing correlation.')\n        self.correlation = self._get_correlation(X)\n        self.univariates = univariates\n"},
     {'name': 'corr-of-raw-data', 'rule': 'D1.chain', 'file': G, 'old': "        correlation = pd.DataFrame(data=result).corr().to_numpy()", 'new': "        correlation = pd.DataFrame(data=X).corr().to_numpy()"},
     {'name': 'transform-iterates-X-columns', 'rule': 'D4.labels', 'file': G, 'old': "        for column_name, univariate in zip(self.columns, self.univariates):\n            if column_name in X:", 'new': "        for column_name, univariate in zip(X.columns, self.univariates):\n            if column_name in X:"},
+    {'name': 'ridge-subtracted', 'rule': 'D2.ridge', 'file': G, 'old': "correlation = correlation + np.identity(correlation.shape[0]) * EPSILON", 'new': "correlation = correlation - np.identity(correlation.shape[0]) * EPSILON"},
+    {'name': 'ridge-divided-by-epsilon', 'rule': 'D2.ridge', 'file': G, 'old': "correlation = correlation + np.identity(correlation.shape[0]) * EPSILON", 'new': "correlation = correlation + np.identity(correlation.shape[0]) / EPSILON"},
+    {'name': 'ridge-of-one', 'rule': 'D2.ridge', 'file': G, 'old': "correlation = correlation + np.identity(correlation.shape[0]) * EPSILON", 'new': "correlation = correlation + np.identity(correlation.shape[0])"},
+    {'name': 'ridge-guard-threshold-inf', 'rule': 'D2.ridge', 'file': G, 'old': "if np.linalg.cond(correlation) > 1.0 / sys.float_info.epsilon:", 'new': "if np.linalg.cond(correlation) > 1.0 / sys.float_info.epsilon ** 2:"},
 ]
 REWRITES = [
+    {'name': 'ridge-literal-size', 'file': G, 'old': "correlation = correlation + np.identity(correlation.shape[0]) * EPSILON", 'new': "correlation = correlation + np.identity(correlation.shape[0]) * 1e-7"},
+    {'name': 'guard-lower-threshold', 'file': G, 'old': "if np.linalg.cond(correlation) > 1.0 / sys.float_info.epsilon:", 'new': "big = 1e12\n        if np.linalg.cond(correlation) > big:"},
     {'name': 'flipped-comparison', 'file': G, 'old': "if np.linalg.cond(correlation) > 1.0 / sys.float_info.epsilon:", 'new': "if 1.0 / sys.float_info.epsilon < np.linalg.cond(correlation):"},
     {'name': 'ridge-commuted', 'file': G, 'old': "correlation = correlation + np.identity(correlation.shape[0]) * EPSILON", 'new': "correlation = EPSILON * np.identity(correlation.shape[0]) + correlation"},
     {'name': 'temp-for-scores-frame', 'file': G, 'old': "        correlation = pd.DataFrame(data=result).corr().to_numpy()", 'new': "        frame = pd.DataFrame(data=result)\n        correlation = frame.corr().to_numpy()"},
